@@ -1239,6 +1239,10 @@ fn configs(tier: &str) -> Vec<Cfg> {
         v.push(Cfg { family: "ttl".into(), policy: pol.into(), capacity: cap, ttl_s: Some(10), depth: d(4, 5), ..base.clone() });
         v.push(Cfg { family: "tti".into(), policy: pol.into(), capacity: cap, tti_s: Some(10), depth: d(5, 6), ..base.clone() });
     }
+    // both deadlines configured at once: whichever comes first expires the entry (ttl 10 s with tti 6 s and with tti 14 s,
+    // so that each of the two is the earlier one in one configuration)
+    v.push(Cfg { family: "ttl".into(), policy: "default".into(), capacity: None, ttl_s: Some(10), tti_s: Some(6), depth: d(4, 5), ..base.clone() });
+    v.push(Cfg { family: "tti".into(), policy: "default".into(), capacity: None, ttl_s: Some(10), tti_s: Some(14), depth: d(5, 6), ..base.clone() });
     if !quick {
         v.push(Cfg { family: "ttl".into(), policy: "default".into(), capacity: None, ttl_s: Some(10), tti_s: Some(10), depth: 5, ..base.clone() });
     }
